@@ -57,6 +57,7 @@ pub(crate) mod verif_cmd {
     pub fn oo_create(oo: &mut std::fs::OpenOptions, v: bool) -> &mut std::fs::OpenOptions { unsafe { OO_CREATE = v; } oo }
     pub fn oo_truncate(oo: &mut std::fs::OpenOptions, v: bool) -> &mut std::fs::OpenOptions { unsafe { OO_TRUNC = v; } oo }
     pub fn oo_write(oo: &mut std::fs::OpenOptions, v: bool) -> &mut std::fs::OpenOptions { unsafe { OO_WRITE = v; } oo }
+    pub fn oo_mode(oo: &mut std::fs::OpenOptions, _m: u32) -> &mut std::fs::OpenOptions { oo }
     pub fn oo_open<P: AsRef<Path>>(_oo: &std::fs::OpenOptions, _p: P) -> std::io::Result<File> {
         unsafe {
             if !FS.exists && !OO_CREATE { return Err(std::io::Error::from(std::io::ErrorKind::NotFound)); }
@@ -195,13 +196,19 @@ pub(crate) mod verif_cmd {
     /// C13/C04: OnDemandFile creates the file at the first write or flush - never before - and exactly once.
     #[kani::proof]
     #[kani::stub(std::fs::File::create, create_model)]
+    #[kani::stub(std::fs::OpenOptions::append, oo_append)]
+    #[kani::stub(std::fs::OpenOptions::create, oo_create)]
+    #[kani::stub(std::fs::OpenOptions::truncate, oo_truncate)]
+    #[kani::stub(std::fs::OpenOptions::write, oo_write)]
+    #[kani::stub(std::fs::OpenOptions::open, oo_open)]
+    #[kani::stub(<std::fs::OpenOptions as std::os::unix::fs::OpenOptionsExt>::mode, oo_mode)]
     #[kani::stub(<std::fs::File as std::io::Write>::write, file_write_model)]
     #[kani::stub(<std::fs::File as std::io::Write>::flush, file_flush_model)]
     #[kani::stub(<std::os::fd::OwnedFd as std::ops::Drop>::drop, ownedfd_drop_model)]
     #[kani::unwind(6)]
     pub fn cmd_ondemand_file() {
         let pre: bool = kani::any();
-        unsafe { FS.exists = pre; FS.len = if pre { 3 } else { 0 }; }
+        unsafe { FS.exists = pre; FS.len = if pre { 3 } else { 0 }; OO_APPEND = false; OO_CREATE = false; OO_TRUNC = false; OO_WRITE = false; }
         let mut f = OnDemandFile::new("o");
         unsafe { assert!(FS.creates == 0 && FS.exists == pre && FS.len == (if pre { 3 } else { 0 }), "[C13] constructing the output sink touches nothing on disk"); }
         let ops: [u8; 3] = kani::any();
@@ -216,6 +223,9 @@ pub(crate) mod verif_cmd {
             }
             i += 1;
         }
+        // whatever was at the path before, the file now holds exactly what was written through this sink
+        let written = (if ops[0] % 3 == 0 { 1 } else { 0 }) + (if ops[1] % 3 == 0 { 1 } else { 0 }) + (if ops[2] % 3 == 0 { 1 } else { 0 });
+        unsafe { if touched > 0 { assert!(FS.len == written, "[C12,C13,C01,C06,C08] the output file holds exactly the bytes written to it: an existing longer file is replaced, not overwritten in place (no stale tail)"); } }
         core::mem::forget(f);
     }
 
@@ -605,8 +615,8 @@ pub(crate) mod verif_cmd {
             let new = k.len() == 20;
             if new { ENV_READS_NEW += 1; } else { ENV_READS_OLD += 1; }
             if !ENV_SET { return Err(std::env::VarError::NotPresent); }
-            // values with leading and trailing whitespace: they must reach the key derivation unchanged
-            if new { Ok(String::from(" q ")) } else { Ok(String::from(" p ")) }
+            // values with a leading space and a trailing newline: they must reach the key derivation unchanged
+            if new { Ok(String::from(" q\n")) } else { Ok(String::from(" p\n")) }
         }
     }
     /// C16/C02/C14: with --env-pass the password is exactly the value of KESTREL_PASSWORD (KESTREL_NEW_PASSWORD for the
@@ -635,9 +645,9 @@ pub(crate) mod verif_cmd {
                 assert!(r.is_ok(), "[C12] --env-pass with the variable set yields the password");
                 let p = r.as_ref().unwrap();
                 let b = p.as_bytes();
-                let want: &[u8; 3] = if which == 2 { b" q " } else { b" p " };
+                let want: &[u8; 3] = if which == 2 { b" q\n" } else { b" p\n" };
                 assert!(b.len() == 3 && b[0] == want[0] && b[1] == want[1] && b[2] == want[2],
-                        "[C16,C02,C14] the password taken from the environment is used byte for byte (whitespace included): the old one from KESTREL_PASSWORD, the new one of change-pass from KESTREL_NEW_PASSWORD");
+                        "[C16,C02,C14] the password taken from the environment is used byte for byte (leading/trailing whitespace and line endings included): the old one from KESTREL_PASSWORD, the new one of change-pass from KESTREL_NEW_PASSWORD");
                 if which == 2 { assert!(ENV_READS_NEW == 1 && ENV_READS_OLD == 0, "[C16] the NEW password comes from KESTREL_NEW_PASSWORD"); }
                 else { assert!(ENV_READS_OLD == 1 && ENV_READS_NEW == 0, "[C16,C02] the password comes from KESTREL_PASSWORD"); }
             }
